@@ -612,6 +612,15 @@ func TestC04(t *testing.T) {
 		if v := c04Judge(c, res); v != "" {
 			rt.Fatalf("C04 violated by %v: %s", c, v)
 		}
+		if rapid.IntRange(0, 5).Draw(rt, "reuseInstance") == 0 {
+			forceOp = c.op
+			other := c04Gen(rt)
+			forceOp = ""
+			ev.Class("C04", "instance-reused")
+			if d := reuseDifferential(c.op, c.node, other.ins, c.ins); d != "" {
+				rt.Fatalf("C04 violated by %v after the same operator instance served %v: %s", c, other, d)
+			}
+		}
 		if rapid.IntRange(0, 4).Draw(rt, "modelLevel") == 0 {
 			mres := runSingleNodeModel(c.node, cloneTs(c.ins), 1)
 			ev.Class("C04", "model-level")
